@@ -119,11 +119,11 @@ META["C10"] = {"engine": "N-cluster", "design_ref": "DESIGN.md §4 Engine N, §5
                "level_text": ("Exploration: generated scripts with role changes forced between two requests of one connection; every relayed reply must equal the leader's reply or be a refusal, a non-leader's own state must not change. "
                               "Real sockets and goroutines: failing scripts are re-executed and reported only when the failure repeats."),
                "level_note": "Trusted: roles forced through SLock.updateState on a slaveof follower (no real election), the comparison cluster built from the same preload. Known: a non-leader answers concurrent-check probes from its own view; a follower never drops a replicated hold on its own clock (the 300 s bound is not reached)."}
-ENGINES["R-real-time"] = {"path": "harness/server/er_engine_test.go, er_oracle_test.go, er_gen_test.go", "props": ["C05", "C06"], "kind": "PBT (rapid) of short real-time scripts against a leader with its own dispatcher goroutines and millisecond wheels; stamped requests and replies, sound early bounds, load-aware late bounds, confirm-by-re-execution"}
+ENGINES["R-real-time"] = {"path": "harness/server/er_engine_test.go, er_oracle_test.go, er_gen_test.go, er_disp_test.go", "props": ["C05", "C06"], "kind": "PBT (rapid) of short real-time scripts against a leader with its own dispatcher goroutines and millisecond wheels; stamped requests and replies, sound early bounds, load-aware late bounds, confirm-by-re-execution"}
 for _p in ("C05", "C06"):
     META[_p] = dict(META[_p])
     META[_p]["engine"] = "A-virtual-clock + R-real-time"
-    META[_p]["technique"] = META[_p]["technique"] + "; plus property-based testing of generated real-time scripts (millisecond flags, the server's own timer goroutines) with stamped replies: never early, late only when the measured scheduling delay rules the machine out"
+    META[_p]["technique"] = META[_p]["technique"] + "; plus property-based testing of generated real-time scripts (millisecond flags, the server's own timer goroutines) with stamped replies: never early, late only when the measured scheduling delay rules the machine out; plus generated clock schedules (single seconds and jumps up to 70 s) for the server's real sweep dispatcher goroutines under a harness-owned clock, checked against a reply-driven ledger"
     META[_p]["level_text"] = META[_p]["level_text"] + " Engine R adds hundreds (quick) to thousands (thorough) of real-time cases of a few seconds each; schedules are real, so a failure is reported only if it recurs on re-execution."
 ENGINES["T-text-kv"] = {"path": "harness/server/c15t_engine_test.go, c15t_model_test.go, c15t_gen_test.go, c15t_script_test.go", "props": ["C15"], "kind": "model-based PBT (rapid): generated Redis-style command sequences through the real text front end under a virtual clock vs. a reference key-value store kept as a set of hypotheses"}
 META["C15"] = dict(META["C15"])
